@@ -36,6 +36,12 @@ class Extractor:
         v = try_fold(n, self.env)
         return v if isinstance(v, int) and not isinstance(v, bool) else None
 
+    def _terms(self, n):
+        """a + b + c -> [a, b, c]"""
+        if isinstance(n, ast.BinOp) and isinstance(n.op, ast.Add):
+            return self._terms(n.left) + self._terms(n.right)
+        return [n]
+
     def sibling(self, call):
         if isinstance(call, ast.Call) and isinstance(call.func, ast.Attribute) and U(call.func.value) == "self" \
                 and call.func.attr in self.methods:
@@ -63,13 +69,17 @@ class Extractor:
                 if nm:
                     out.append(("call", nm, [U(x) for x in s.value.args], ("=", U(s.targets[0])), s))
                 else:
-                    out.append(("acc", U(s.targets[0]), "=", U(s.value), self.fold(s.value)))
+                    terms = self._terms(s.value)
+                    out.append(("acc", U(s.targets[0]), "=", U(terms[0]), self.fold(terms[0])))
+                    for t in terms[1:]:
+                        out.append(("acc", U(s.targets[0]), "+=", U(t), self.fold(t)))
             elif isinstance(s, ast.AugAssign) and U(s.target) in self.acc_vars and isinstance(s.op, ast.Add):
                 nm = self.sibling(s.value)
                 if nm:
                     out.append(("call", nm, [U(x) for x in s.value.args], ("+=", U(s.target)), s))
                 else:
-                    out.append(("acc", U(s.target), "+=", U(s.value), self.fold(s.value)))
+                    for t in self._terms(s.value):
+                        out.append(("acc", U(s.target), "+=", U(t), self.fold(t)))
             elif isinstance(s, ast.Expr) and self.sibling(s.value):
                 out.append(("call", self.sibling(s.value), [U(x) for x in s.value.args], None, s))
             elif isinstance(s, ast.For):
